@@ -25,7 +25,7 @@ static const char *VALUES[] = {
 
 struct Gen {
     Rng rng;
-    bool no_insert = false;	// steer around the [n+] / [+] subscripts (known finding, see known_findings.json)
+    bool no_insert = false;	// steer around the [n+] / [+] subscripts (was needed while the insert / append finding was open)
     bool c14;		// valid UTF-8 only
     std::vector<std::string> keys;
     DNode roots[NROOTS];
@@ -186,13 +186,17 @@ Plan doc_gen(const std::string &check, const std::string &tier, uint64_t seed, l
     g.c14 = c14;
     // swarm configuration
     int nkeys = (int)rng.range(2, 7);
-    for (int i = 0; i < nkeys; ++i) g.keys.push_back(g.rand_key());
+    // now and then a wide map: the hash table of a map is enlarged (and every element re-hashed) from its 21st key on
+    bool wide = rng.chance(0.08);
+    if (wide) nkeys = (int)rng.range(23, 50);
+    for (int i = 0; i < nkeys; ++i) g.keys.push_back(wide && rng.chance(0.7) ? strf("w%d", i) : g.rand_key());
     int maxdepth = (int)rng.range(3, 6);
     int ntasks = (int)rng.range(1, 3);
     double p_bad = rng.chance(0.3) ? 0.0 : rng.chance(0.5) ? 0.05 : 0.2;
     bool c11 = check.compare(0, 3, "C11") == 0;
     bool c12 = check.compare(0, 3, "C12") == 0;
-    if (c12) { p_bad = 0; plan.cfg["strict_enomem"] = 1; g.no_insert = check.find("insert") == std::string::npos; }
+    if (c12) { p_bad = 0; plan.cfg["strict_enomem"] = 1; g.no_insert = false; }	// (insert / append subscripts are retry-safe since the repair of the known finding)
+    if (check.find("noretry") != std::string::npos) plan.cfg["no_retry"] = 1;	// the failed call is not re-issued; the tree is used on as it is
     if (c11) { p_bad = rng.chance(0.5) ? 0.3 : 0.5; plan.cfg["assert_refused"] = 1; plan.cfg["c11"] = 1; }
     long nops;
     {
@@ -306,7 +310,33 @@ Plan doc_gen(const std::string &check, const std::string &tier, uint64_t seed, l
 	plan.ops.push_back(op);
     };
 
+    // the wide map is filled first: one plain set per key of the pool, at the root or one level down
+    auto emit_wide = [&]() {
+	if (!wide) return;
+	int ri = task_root[0];
+	bool nested = rng.chance(0.3);
+	for (const std::string &key : g.keys) {
+	    if (rng.chance(0.08)) continue;
+	    DPath p;
+	    if (nested) { DElem e0; e0.t = 0; e0.key = "wide"; p.el.push_back(e0); }
+	    DElem e; e.t = 0; e.key = key; p.el.push_back(e);
+	    Op op; op.k = "set";
+	    g.put_path(op, p);
+	    g.spell(op);
+	    op.i[0] = ri;
+	    std::string value = g.rand_value();
+	    op.s.push_back(value);
+	    op.s.push_back("");
+	    DResult r = dmodel_descend(g.roots[ri], p, true);
+	    if (r.err) continue;
+	    r.node->clear(); r.node->k = 1; r.node->s = value;
+	    op.i[9] = 0;
+	    plan.ops.push_back(op);
+	}
+    };
+    if (wide) plan.cfg["wide"] = 1;
     if (!c14) {
+	emit_wide();
 	for (long n = 0; n < nops; ++n) emit_edit((int)rng.below(ntasks));
 	plan.cfg["mode"] = "edit";
 	return plan;
@@ -316,6 +346,7 @@ Plan doc_gen(const std::string &check, const std::string &tier, uint64_t seed, l
     int cycles = (int)rng.range(1, 3);
     for (int cy = 0; cy < cycles; ++cy) {
 	long n = cy == 0 ? nops : rng.range(0, 8);
+	if (cy == 0) emit_wide();
 	for (long k = 0; k < n; ++k) emit_edit((int)rng.below(ntasks));
 	int ri = task_root[rng.below(ntasks)];
 	Op ex; ex.k = "export"; ex.i.assign(11, 0); ex.i[0] = ri; ex.i[1] = rng.chance(0.7); ex.s = {strf("f%d.yaml", cy)};
